@@ -856,6 +856,39 @@ config TXT
     default "ab cd"
 """, [[{"set": {"LIM": 3}}, {"set": {"LVL": 7}}, {"set": {"HI": True}}, {"set": {"LVL": 1}}, {"set": {"MODE": "off"}}, {"set": {"MODE": "slow"}},
        {"set": {"TXT": "q \"x\" \\ # \u00e9"}}, {"reset": ["LVL"]}]]),
+    # `load` of an earlier checkpoint over a configuration in which the user picked another choice member: the
+    # default-marked entries of the file (K) must be judged against the configuration being loaded, not against the
+    # pick left over from before the load (K is visible and has another default only under that pick)
+    ("fx:load-over-choice-pick", _MM + """\
+choice CH
+    prompt "ch"
+
+    config A
+        bool "a"
+
+    config B
+        bool "b"
+
+endchoice
+
+config G
+    bool "g"
+
+config K
+    int "k" if B
+    default 5 if B
+    default 1 if !G
+    default 2
+
+menu "Dep"
+    depends on K != 1
+
+    config D
+        int "d"
+        default 3
+
+endmenu
+""", [[{"set": {"G": False}}, {"set": {"B": True}}, {"load": "ck0"}, {"set": {"G": True}}]]),
 ]
 
 FIXTURE_C15 = ("fx15:all-types", _MM + """\
@@ -1583,7 +1616,7 @@ _BOUND = {
             "default with a user value on the target, set T=SYM, symbol-valued range bounds for int/hex/float with user values on the ranged option, "
             "numeric options without any value (JSON null) incl. a promptless one, conditional ranges that become inactive, nested menus with depends on "
             "/ visible if, menuconfig, promptless-only menu, prompt-if options, select/imply, named and unnamed choices with conditional member prompt, "
-            "options defined twice, comparison conditions; each also once under parser 2) + rtc.gen corpus(seed, {count}) = all {nsmall} small_trees(2) "
+            "options defined twice, comparison conditions, load of a checkpoint over a user-made choice pick; each also once under parser 2) + rtc.gen corpus(seed, {count}) = all {nsmall} small_trees(2) "
             "and {count} random trees of <= 6 options (every 4th under KCONFIG_PARSER_VERSION=2), rename files where generated.  Histories: per fixture "
             "1 scripted history + {fx} random ones per version, {sh} per small tree, {rh} per random tree; {ln}/{sl} requests each: set of 1-3 options "
             "(documented JSON types; values = literals of the tree +-1, so in and out of range; invisible and unknown targets), reset of symbols / menu "
